@@ -60,6 +60,11 @@ type BatchSpec struct {
 	Kids     map[string]*BatchSpec `json:"kids,omitempty"`
 	DelKids  []string              `json:"delkids,omitempty"`
 	UseAlloc bool                  `json:"alloc,omitempty"`
+	// AllocStyle (with the Alloc* API): "" - every entry is allocated and added at once; "arena" - one Alloc for the bytes
+	// of all entries, carved into keys and values, then the Alloc* calls; "all-first" - the Alloc calls of all entries,
+	// then the Alloc* calls.  All three are uses the API documents (an entry may be added any time after its bytes were
+	// allocated from the same batch).
+	AllocStyle string `json:"alloc_style,omitempty"`
 }
 
 // keepOperand is a merge operand that leaves the existing value (or absence) unchanged; the operator then
@@ -379,6 +384,57 @@ func dumpSnapshot(ss moss.Snapshot, probes []string, depth int) *DumpT {
 
 // BuildBatch fills a moss batch from a spec.
 func BuildBatch(b moss.Batch, spec *BatchSpec) error {
+	if spec.AllocStyle == "arena" || spec.AllocStyle == "all-first" {
+		keys, vals := make([][]byte, len(spec.Ops)), make([][]byte, len(spec.Ops))
+		if spec.AllocStyle == "arena" {
+			total := 0
+			for _, o := range spec.Ops {
+				total += len(o.Key) + len(o.Val)
+			}
+			arena, e := b.Alloc(total)
+			if e != nil {
+				return e
+			}
+			off := 0
+			for i, o := range spec.Ops {
+				keys[i] = arena[off : off+len(o.Key)]
+				off += len(o.Key)
+				if o.Kind != 'D' {
+					vals[i] = arena[off : off+len(o.Val)]
+					off += len(o.Val)
+				}
+			}
+		} else {
+			for i, o := range spec.Ops {
+				var e error
+				if keys[i], e = b.Alloc(len(o.Key)); e != nil {
+					return e
+				}
+				if o.Kind != 'D' {
+					if vals[i], e = b.Alloc(len(o.Val)); e != nil {
+						return e
+					}
+				}
+			}
+		}
+		for i, o := range spec.Ops {
+			copy(keys[i], o.Key)
+			copy(vals[i], o.Val)
+			var err error
+			switch o.Kind {
+			case 'S':
+				err = b.AllocSet(keys[i], vals[i])
+			case 'M':
+				err = b.AllocMerge(keys[i], vals[i])
+			case 'D':
+				err = b.AllocDel(keys[i])
+			}
+			if err != nil {
+				return err
+			}
+		}
+		spec = &BatchSpec{Kids: spec.Kids, DelKids: spec.DelKids, UseAlloc: true}
+	}
 	for _, o := range spec.Ops {
 		var err error
 		if spec.UseAlloc || o.Alloc {
